@@ -87,12 +87,41 @@ func (d *dagStoreImpl) UpdateSpec(name string, spec []byte) error {
 	if !exists(loc) {
 		return fmt.Errorf("%w: %s", errDOGFileNotExist, loc)
 	}
-	err = os.WriteFile(loc, spec, defaultPerm)
+	err = writeFileAtomic(loc, spec, defaultPerm)
 	if err != nil {
 		return err
 	}
 	d.metaCache.Invalidate(loc)
 	return nil
+}
+
+// writeFileAtomic replaces the file in one step: the new content is written
+// to a temporary file in the same directory (its name does not end in a DAG
+// extension) and renamed into place, so that a crash at any point leaves
+// either the complete old or the complete new content.
+func writeFileAtomic(loc string, data []byte, perm os.FileMode) error {
+	if info, err := os.Stat(loc); err == nil {
+		perm = info.Mode().Perm()
+	}
+	tmp, err := os.CreateTemp(filepath.Dir(loc), filepath.Base(loc)+".*.tmp")
+	if err != nil {
+		return err
+	}
+	tmpName := tmp.Name()
+	_, err = tmp.Write(data)
+	if cerr := tmp.Close(); err == nil {
+		err = cerr
+	}
+	if err == nil {
+		err = os.Chmod(tmpName, perm)
+	}
+	if err == nil {
+		err = os.Rename(tmpName, loc)
+	}
+	if err != nil {
+		_ = os.Remove(tmpName)
+	}
+	return err
 }
 
 var errDAGFileAlreadyExists = errors.New("the DAG file already exists")
